@@ -20,6 +20,7 @@ import PdfVerif.Model.CcittStream
 import PdfVerif.Lemmas.CcittSpecTables
 import PdfVerif.Lemmas.CcittParams
 import PdfVerif.Lemmas.CcittPolarity
+import PdfVerif.Lemmas.CcittColumns
 
 namespace PdfVerif.Props.C19
 open PdfVerif PdfVerif.Ccitt PdfVerif.Gen PdfVerif.Spec
@@ -642,5 +643,62 @@ example :
       some (T6.packImage false (List.replicate 9 [true, true, true])) ∧
     (ccittfaxdecode (some (-1)) (some 3) false true [0xFF, 0x12, 0x34]).toOption =
       some (T6.packImage true (List.replicate 9 [true, true, true])) := by decide +kernel
+
+/-- **Invalid `Columns`** (round 6d), for EVERY such value: an integer ≤ 0 or `false` (`c = some i`), or
+any object that is not an integer (`c = none`: null, name, array, dictionary, real, string), every data
+and flags.  Direct call: a non-integer raises `TypeError` (`[1] * width`) before any data is read; a
+width ≤ 0 gives data, `InvalidData` or `IndexError` (the line arrays are empty) and no unmodelled branch.
+Through `PDFStream.get_data()` nothing leaks: `IndexError` and `TypeError` are members of the regenerated
+`_DECODE_ERRORS` (`Gen.Filters.DECODE_ERRORS`), so the outcome is data (empty when an error was caught)
+or a member of the library's error family (`InvalidData`; `PDFException` when STRICT). -/
+theorem columns_invalid_rejected (v : PObj) (c : Option Int) (hv : invalidColumns v = some c)
+    (al rv strict : Bool) (data : List UInt8) :
+    (c = none → decodeInvalidColumns v al rv data = .error .typeError) ∧
+    (c ≠ none → (∃ out, decodeInvalidColumns v al rv data = .ok out) ∨
+      decodeInvalidColumns v al rv data = .error .invalidData ∨
+      decodeInvalidColumns v al rv data = .error .indexError) ∧
+    ((∃ d, streamInvalidColumns strict v al rv data = .data d) ∨
+      (∃ n, streamInvalidColumns strict v al rv data = .pdfException n)) := by
+  have hwt : WT (initSt 0 al rv) := wt_mode _ rfl rfl
+  have hT : Filters.DECODE_ERRORS.contains ColErr.typeError.pyName = true := by decide
+  have hI : Filters.DECODE_ERRORS.contains ColErr.indexError.pyName = true := by decide
+  cases c with
+  | none =>
+    have hd : decodeInvalidColumns v al rv data = .error .typeError := by
+      simp only [decodeInvalidColumns, hv]
+    refine ⟨fun _ => hd, fun h => absurd rfl h, ?_⟩
+    simp only [streamInvalidColumns, hd, hT, if_true]
+    cases strict
+    · left; exact ⟨[], rfl⟩
+    · right; exact ⟨_, rfl⟩
+  | some i =>
+    have hd : decodeInvalidColumns v al rv data = decodeDegenerate al rv data := by
+      unfold decodeInvalidColumns; rw [hv]
+    refine ⟨fun h => (by cases h), fun _ => ?_, ?_⟩
+    · rw [hd]; unfold decodeDegenerate
+      rcases feedBytesD_total data _ hwt with ⟨st', h⟩ | h | h <;> rw [h]
+      · left; exact ⟨_, rfl⟩
+      · right; left; rfl
+      · right; right; rfl
+    · simp only [streamInvalidColumns, hd, decodeDegenerate]
+      rcases feedBytesD_total data _ hwt with ⟨st', h⟩ | h | h <;> rw [h]
+      · left; exact ⟨_, rfl⟩
+      · right; exact ⟨_, rfl⟩
+      · simp only [hI, if_true]
+        cases strict
+        · left; exact ⟨[], rfl⟩
+        · right; exact ⟨_, rfl⟩
+
+/-- Non-vacuity: Columns 0 with a V0 code (`IndexError`), with H + two runs (empty data), with an
+extension code (`InvalidData`); Columns `/Foo` (`TypeError`); and what `get_data()` makes of them. -/
+example :
+    errOf (decodeInvalidColumns (.int 0) false false [0x80]) = some .indexError ∧
+    (decodeInvalidColumns (.int (-5)) true false [0x26, 0xA0]).toOption = some [] ∧
+    errOf (decodeInvalidColumns (.bool false) false false [0x02, 0x00]) = some .invalidData ∧
+    errOf (decodeInvalidColumns (.name "Foo") false false [0x80]) = some .typeError ∧
+    streamInvalidColumns false (.int 0) false false [0x80] = .data [] ∧
+    streamInvalidColumns true (.name "Foo") false false [0x80] = .pdfException "PDFException" ∧
+    streamInvalidColumns false (.int 0) false false [0x02, 0x00] = .pdfException "InvalidData" := by
+  decide +kernel
 
 end PdfVerif.Props.C19
